@@ -424,6 +424,28 @@ func runC14(c C14Case) (res common.Result) {
 		res.Fail = common.Failf("append-refused-after-close", "after Close racing with a segment-filling append and a reopen, StoreLogs(%d) = %v; schedule %v", nl.Index, err, ctl.Trace)
 		return
 	}
+	// ... and keeps them: a second clean Close and Open shows that entry too, and the directory
+	// holds exactly the files the metadata names (Close is final for one instance, not for the log)
+	final.Append([]*raft.Log{nl})
+	if err := w2.Close(); err != nil && cfg.MetaCloseErr == nil {
+		// (with an injected MetaStore.Close error the same error is expected here again)
+		res.Fail = common.Failf("second-close-err", "Close of the reopened WAL = %v", err)
+		return
+	}
+	w3, err := cfg.Open()
+	if err != nil {
+		res.Fail = common.Failf("second-reopen-err", "second Open after Close = %v (acknowledged [%d,%d]; schedule %v)", err, final.First, final.Last, ctl.Trace)
+		return
+	}
+	defer w3.Close()
+	if sig, msg := kit.CheckAgainst(w3, final, nil); sig != "" {
+		res.Fail = common.Failf("acked-lost-after-second-reopen/"+sig, "entry %d was acknowledged by the instance opened after Close; after its own Close and another Open: %s (schedule %v)", nl.Index, msg, ctl.Trace)
+		return
+	}
+	if extra, missing := kit.DirVsMeta(fs); len(extra)+len(missing) > 0 {
+		res.Fail = common.Failf("dir-vs-meta-after-close", "after Close, reopen, append, Close, reopen: files not named by the metadata %v, segments without a file %v", extra, missing)
+		return
+	}
 	res.NonTrivial = closeInside
 	return
 }
